@@ -9,7 +9,7 @@ import (
 func TestMain(m *testing.M) { hk.Main(m, "C11") }
 
 func TestDifferential(t *testing.T) {
-	hk.RunSub(t, hk.Sub[Plan]{Name: "diff/direct-vs-remote", Quick: 800, Thorough: 5000, Gen: GenDiff, Run: RunDiff, Journal: true})
+	hk.RunSub(t, hk.Sub[Plan]{Name: "diff/direct-vs-remote", Quick: 1600, Thorough: 5000, Gen: GenDiff, Run: RunDiff, Journal: true})
 }
 
 func TestTotality(t *testing.T) {
